@@ -12,12 +12,18 @@ import (
 	"fmt"
 	"path/filepath"
 
+	"github.com/q191201771/lal/pkg/hls"
 	"github.com/q191201771/lal/pkg/httpflv"
 )
 
 // startRecordFlvIfNeeded 必要时开启flv录制
 func (group *Group) startRecordFlvIfNeeded(nowUnix int64) {
 	if !group.config.RecordConfig.EnableFlv {
+		return
+	}
+
+	if !hls.StreamNameIsSafePathElement(group.streamName) {
+		Log.Errorf("[%s] record flv not started since stream name can not be used as file name. streamName=%s", group.UniqueKey, group.streamName)
 		return
 	}
 
